@@ -37,6 +37,7 @@ type cv struct {
 	dirs   []string
 	mut    *sched.Proc
 	nextID int
+	opts   gen.Opts // name space of the generated Specs (narrow in a third of the runs)
 }
 
 // planned content of the disk as the generator sees it while it draws the
@@ -51,7 +52,7 @@ func (c *cv) content(name string) *gen.Meta {
 	if src.Bool(1, 5) {
 		return c.reg.Invalid(src, "")
 	}
-	return c.reg.Valid(src, strings.HasSuffix(name, ".json"), gen.Opts{})
+	return c.reg.Valid(src, strings.HasSuffix(name, ".json"), c.opts)
 }
 
 func pickKey(src interface{ Intn(int) int }, m map[string]bool) string {
@@ -587,6 +588,11 @@ func converge(r *core.Run, reconfigure bool) {
 	e := newEnv(r, sched.Config{SwitchDen: []int{1, 1, 2, 4}[src.Intn(4)], MaxSteps: maxSteps}, memfs.Cred{})
 	c := &cv{env: e}
 	c.mut = e.w.NewProc("admin", memfs.Cred{})
+	if src.Bool(1, 3) {
+		// one kind, two device names: conflicts and shadowing are the rule
+		c.opts = gen.Opts{Vendors: []string{"vendor.com"}, Classes: []string{"gpu"}, DevNames: []string{"dev0", "dev1"}}
+		r.Knob("narrow_names", true)
+	}
 	// event loss: sometimes the inotify queue is short (fs.inotify.max_queued_events),
 	// so that a burst while the watcher is slow overflows it
 	if src.Bool(1, 5) {
@@ -792,6 +798,21 @@ func converge(r *core.Run, reconfigure bool) {
 	// query of a drawn kind, the observed round starts with the same kind.
 	first := queryKinds[src.Intn(len(queryKinds))]
 	r.Knob("first_query", first)
+	// a client may also start with a call that is NOT meant to refresh (an error
+	// getter): it must not get in the way of the queries that follow
+	if prelude := src.Intn(4); prelude > 0 {
+		r.Knob("prelude", []string{"", "GetSpecDirErrors", "GetErrors", "GetSpecDirectories"}[prelude])
+		e.do("prelude", func() {
+			switch prelude {
+			case 1:
+				_ = e.cache.GetSpecDirErrors()
+			case 2:
+				_ = e.cache.GetErrors()
+			case 3:
+				_ = e.cache.GetSpecDirectories()
+			}
+		})
+	}
 	e.do("queries-1", func() { touch(e.cache, probe, first) })
 	e.w.Quiesce()
 	r.CheckHealth("quiescence after the first query round")
